@@ -205,9 +205,10 @@ fn calc_single(ty: Intern<Ty>, ptr_ty: types::Type) {
             calc_single(*sub_ty, ptr_ty);
             sub_ty.get_final_ty()
         }
-        Ty::NaivePolymorphicFunction { .. } => {
-            unreachable!("these shouldn't get to codegen")
-        }
+        // no value of this type is ever compiled, but the type itself is in the list of all types
+        // while a generic call is being checked (it is the type of the callee), which is exactly
+        // when a comptime block that is an argument of that call gets evaluated
+        Ty::NaivePolymorphicFunction { .. } => FinalTy::Pointer(ptr_ty),
         Ty::ConcreteFunction {
             param_tys,
             return_ty,
